@@ -161,7 +161,7 @@ def h_program_roundtrip(env, N, prog, config='plain', cls='CliffordCircuit', var
         env.goal('rank_restored', eq(obj.r, r))
 
 
-def h_packing_all(env, N, n_ops, cls='CliffordCircuit', kmax=None, with_measure=False):
+def h_packing_all(env, N, n_ops, cls='CliffordCircuit', kmax=None, with_measure=False, pkg='pyclifford'):
     """the packing lemma on EVERY placement shape with n_ops operations (and, for Circuit, every position of one measurement)"""
     tp = []
     for k in range(1, (kmax or N) + 1):
@@ -169,17 +169,16 @@ def h_packing_all(env, N, n_ops, cls='CliffordCircuit', kmax=None, with_measure=
     for places in itertools.product(tp, repeat=n_ops):
         variants = [()] if not with_measure else [(m,) for m in range(n_ops)]
         for ms in variants:
-            h_packing(env, N, [list(q) for q in places], cls, ms, tag='%s%s:' % (places, ms))
+            h_packing(env, N, [list(q) for q in places], cls, ms, tag='%s%s:' % (places, ms), pkg=pkg)
 
 
-def h_packing(env, N, placements, cls='CliffordCircuit', measures=(), tag=''):
+def h_packing(env, N, placements, cls='CliffordCircuit', measures=(), tag='', pkg='pyclifford'):
     """structural lemma on a concrete placement shape (no symbolic data): the flattened layer order is a permutation of
     the added gates in which overlapping gates keep their order, gates sharing a layer are pairwise disjoint, and no
     gate added after a measurement precedes it"""
-    M = Mods(env)
+    M = Mods(env, pkg)
     ops = []
-    C = getattr(M.ci, cls)
-    circ = C(N)
+    circ = M.ci.identity_circuit(N) if cls == 'CliffordCircuit' else getattr(M.ci, cls)(N)
     for k, q in enumerate(placements):
         if k in measures:
             circ.measure(*q)
